@@ -5,6 +5,7 @@ import (
 	"errors"
 	"fmt"
 	"net/http"
+	"strings"
 	"time"
 
 	"github.com/google/uuid"
@@ -176,6 +177,12 @@ func (sdbh *SemaDBHandlers) CollectionURIMiddleware(next http.Handler) http.Hand
 		collectionId := r.PathValue("collectionId")
 		if len(collectionId) < 3 || len(collectionId) > 16 {
 			utils.Encode(w, http.StatusBadRequest, map[string]string{"error": "collectionId must be between 3 and 16 characters"})
+			return
+		}
+		// The path value is unescaped: with a slash in it (sent as %2F) the
+		// record key would be that of a collection of another user id.
+		if strings.Contains(collectionId, "/") {
+			utils.Encode(w, http.StatusBadRequest, map[string]string{"error": "collectionId must not contain a slash"})
 			return
 		}
 		appHeaders := middleware.GetAppHeaders(r.Context())
